@@ -574,7 +574,18 @@ def lookup_skips_only_other_addresses(ctx, s):
             vals = [t] + [x for x in f[2:] if isinstance(x, tuple)]
             if f[0] in ("variant", "notvariant") and t[0] == "try":
                 return False            # an error propagated with `?`
-            return any(contains_value(v, is_ev) for v in vals) and not any(contains_value(v, is_param) for v in vals)
+            if not any(contains_value(v, is_ev) for v in vals) or any(contains_value(v, is_param) for v in vals):
+                return False
+            # the event's kind and its d tag are the address's own parts: a condition on them (no d tag at all, ...) is
+            # not foreign to the address
+            addr_part = lambda y: y[0] == "call" and (y[1].endswith("::kind") or (
+                y[1].rsplit("::", 1)[-1] in ("get_value", "get_string") and
+                contains_value(y, lambda z: z[0] == "bytes" and z[1] in (b"d", b"d\x00"))))
+            others = [v for v in vals if contains_value(v, lambda y: is_ev(y) and not addr_part(y) and
+                                                        y[1].rsplit("::", 1)[-1] not in ("tags", "iter", "next", "deref", "as_slice"))]
+            plain_addr = any(contains_value(v, addr_part) for v in vals) and not \
+                any(contains_value(v, lambda y: y[0] == "call" and y[1].rsplit("::", 1)[-1] in ("get_value", "get_string") and not addr_part(y)) for v in vals)
+            return not plain_addr
         for b, info in fetch:
             inner = [H for H, body in loops.items() if b in body]
             if not inner:
